@@ -155,7 +155,7 @@ def or_form(c, spec):
     """'elseif' when both sides range over the same variables, else 'union' (krrood's rule)."""
     lb, ls = base_vars_of_cond(c[1], spec)
     rb, rs = base_vars_of_cond(c[2], spec)
-    if has_pred_like(c[1]) or has_pred_like(c[2]) or ls or rs:
+    if ls or rs:
         return "union"
     return "elseif" if lb == rb else "union"
 
